@@ -1,3 +1,216 @@
-// ---- spec/matcher_spec.rs : spec functions taken from the property text ----
+// ---- spec/matcher_spec.rs : spec functions and lemmas (hand-written from the property text) ----
 verus! {
+
+use crate::matcher::acquisition_ledger::AcquisitionLot;
+use crate::models::*;
+use crate::matcher::MatchResult;
+
+// ---------- generic real-valued sums over sequences ----------
+pub open spec fn rsum<T>(s: Seq<T>, f: spec_fn(T) -> real) -> real
+    decreases s.len()
+{
+    if s.len() == 0 { 0real } else { rsum(s.drop_last(), f) + f(s.last()) }
+}
+
+pub proof fn rsum_empty<T>(f: spec_fn(T) -> real)
+    ensures rsum(Seq::<T>::empty(), f) == 0real
+{}
+
+pub proof fn rsum_push<T>(s: Seq<T>, x: T, f: spec_fn(T) -> real)
+    ensures rsum(s.push(x), f) == rsum(s, f) + f(x)
+{
+    assert(s.push(x).drop_last() =~= s);
+}
+
+pub proof fn rsum_take_step<T>(s: Seq<T>, i: int, f: spec_fn(T) -> real)
+    requires 0 <= i < s.len()
+    ensures rsum(s.take(i + 1), f) == rsum(s.take(i), f) + f(s[i])
+{
+    assert(s.take(i + 1).drop_last() =~= s.take(i));
+    assert(s.take(i + 1).last() == s[i]);
+}
+
+pub proof fn rsum_take_all<T>(s: Seq<T>, f: spec_fn(T) -> real)
+    ensures rsum(s.take(s.len() as int), f) == rsum(s, f), rsum(s.take(0), f) == 0real
+{
+    assert(s.take(s.len() as int) =~= s);
+    assert(s.take(0) =~= Seq::<T>::empty());
+}
+
+/// two sequences that agree pointwise under f have the same sum
+pub proof fn rsum_ext<T>(a: Seq<T>, b: Seq<T>, f: spec_fn(T) -> real, g: spec_fn(T) -> real)
+    requires a.len() == b.len(), forall|i: int| 0 <= i < a.len() ==> f(#[trigger] a[i]) == g(b[i])
+    ensures rsum(a, f) == rsum(b, g)
+    decreases a.len()
+{
+    if a.len() > 0 {
+        rsum_ext(a.drop_last(), b.drop_last(), f, g);
+    }
+}
+
+/// sum of (f + c*g) = sum f + c * sum g
+pub proof fn rsum_linear<T>(s: Seq<T>, f: spec_fn(T) -> real, g: spec_fn(T) -> real, h: spec_fn(T) -> real, c: real)
+    requires forall|i: int| 0 <= i < s.len() ==> h(#[trigger] s[i]) == f(s[i]) + c * g(s[i])
+    ensures rsum(s, h) == rsum(s, f) + c * rsum(s, g)
+    decreases s.len()
+{
+    if s.len() > 0 {
+        rsum_linear(s.drop_last(), f, g, h, c);
+        let a = rsum(s.drop_last(), g); let b = g(s.last());
+        assert(c * (a + b) == c * a + c * b) by(nonlinear_arith);
+    } else {
+        assert(c * 0real == 0real) by(nonlinear_arith);
+    }
+}
+
+pub proof fn rsum_nonneg<T>(s: Seq<T>, f: spec_fn(T) -> real)
+    requires forall|i: int| 0 <= i < s.len() ==> f(#[trigger] s[i]) >= 0real
+    ensures rsum(s, f) >= 0real
+    decreases s.len()
+{
+    if s.len() > 0 { rsum_nonneg(s.drop_last(), f); }
+}
+
+/// one term of a non-negative sum is bounded by the sum
+pub proof fn rsum_term_le<T>(s: Seq<T>, f: spec_fn(T) -> real, k: int)
+    requires forall|i: int| 0 <= i < s.len() ==> f(#[trigger] s[i]) >= 0real, 0 <= k < s.len()
+    ensures f(s[k]) <= rsum(s, f)
+    decreases s.len()
+{
+    if k == s.len() - 1 { rsum_nonneg(s.drop_last(), f); }
+    else { rsum_term_le(s.drop_last(), f, k); }
+}
+
+
+pub proof fn rsum_split<T>(s: Seq<T>, i: int, f: spec_fn(T) -> real)
+    requires 0 <= i <= s.len()
+    ensures rsum(s, f) == rsum(s.take(i), f) + rsum(s.skip(i), f)
+    decreases s.len() - i
+{
+    if i == s.len() {
+        assert(s.take(i) =~= s); assert(s.skip(i) =~= Seq::<T>::empty());
+    } else {
+        rsum_split(s, i + 1, f);
+        rsum_take_step(s, i, f);
+        rsum_skip_step(s, i, f);
+    }
+}
+pub proof fn rsum_skip_step<T>(s: Seq<T>, i: int, f: spec_fn(T) -> real)
+    requires 0 <= i < s.len()
+    ensures rsum(s.skip(i), f) == f(s[i]) + rsum(s.skip(i + 1), f)
+    decreases s.len() - i
+{
+    let a = s.skip(i);
+    if i == s.len() - 1 {
+        assert(a.drop_last() =~= Seq::<T>::empty());
+        assert(s.skip(i + 1) =~= Seq::<T>::empty());
+        assert(a.last() == s[i]);
+    } else {
+        // a = [s[i]] ++ s.skip(i+1); peel the last element of both
+        let b = s.skip(i + 1);
+        assert(a.drop_last() =~= s.drop_last().skip(i));
+        assert(b.drop_last() =~= s.drop_last().skip(i + 1));
+        assert(a.last() == s.last()); assert(b.last() == s.last());
+        rsum_skip_step(s.drop_last(), i, f);
+        assert(s.drop_last()[i] == s[i]);
+    }
+}
+pub proof fn rsum_scale<T>(s: Seq<T>, f: spec_fn(T) -> real, g: spec_fn(T) -> real, c: real)
+    requires forall|i: int| 0 <= i < s.len() ==> g(#[trigger] s[i]) == c * f(s[i])
+    ensures rsum(s, g) == c * rsum(s, f)
+    decreases s.len()
+{
+    if s.len() > 0 {
+        rsum_scale(s.drop_last(), f, g, c);
+        let a = rsum(s.drop_last(), f); let b = f(s.last());
+        assert(c * (a + b) == c * a + c * b) by(nonlinear_arith);
+    } else {
+        assert(c * 0real == 0real) by(nonlinear_arith);
+    }
+}
+pub proof fn rsum_add<T>(s: Seq<T>, f: spec_fn(T) -> real, g: spec_fn(T) -> real, h: spec_fn(T) -> real)
+    requires forall|i: int| 0 <= i < s.len() ==> h(#[trigger] s[i]) == f(s[i]) + g(s[i])
+    ensures rsum(s, h) == rsum(s, f) + rsum(s, g)
+    decreases s.len()
+{
+    if s.len() > 0 { rsum_add(s.drop_last(), f, g, h); }
+}
+/// pointwise relation between two sequences: sum(b, g) = sum(a, f) + sum(a, delta)
+pub proof fn rsum_ext_add<T>(a: Seq<T>, b: Seq<T>, f: spec_fn(T) -> real, g: spec_fn(T) -> real, dl: spec_fn(T) -> real)
+    requires a.len() == b.len(), forall|i: int| 0 <= i < a.len() ==> g(b[i]) == f(#[trigger] a[i]) + dl(a[i])
+    ensures rsum(b, g) == rsum(a, f) + rsum(a, dl)
+    decreases a.len()
+{
+    if a.len() > 0 { rsum_ext_add(a.drop_last(), b.drop_last(), f, g, dl); }
+}
+
+// ---------- acquisition lots ----------
+pub open spec fn lot_avail(l: AcquisitionLot) -> real { l.original_amount.v() - l.consumed.v() - l.reserved.v() - l.in_pool.v() }
+pub open spec fn lot_held(l: AcquisitionLot) -> real { l.original_amount.v() - l.consumed.v() }
+pub open spec fn lot_base_cost(l: AcquisitionLot) -> real { l.original_amount.v() * l.price.v() + l.expenses.v() }
+pub open spec fn lot_adj_cost(l: AcquisitionLot) -> real { lot_base_cost(l) + l.cost_offset.v() }
+/// the one unit cost used by same-day, 30-day and pooling alike (C03.lot_unit)
+pub open spec fn lot_unit(l: AcquisitionLot) -> real {
+    if l.original_amount.v() != 0real { lot_adj_cost(l) / l.original_amount.v() } else { 0real }
+}
+/// every share of a lot is in exactly one place and no counter is negative
+pub open spec fn wf_lot(l: AcquisitionLot) -> bool {
+    &&& l.original_amount.v() >= 0real
+    &&& l.consumed.v() >= 0real
+    &&& l.reserved.v() >= 0real
+    &&& l.in_pool.v() >= 0real
+    &&& l.consumed.v() + l.reserved.v() + l.in_pool.v() <= l.original_amount.v()
+}
+pub open spec fn wf_lots(s: Seq<AcquisitionLot>) -> bool { forall|i: int| 0 <= i < s.len() ==> wf_lot(#[trigger] s[i]) }
+
+/// same lot except for the `consumed` counter
+pub open spec fn lot_same_but_consumed(a: AcquisitionLot, b: AcquisitionLot) -> bool {
+    a.transaction_idx == b.transaction_idx && a.date == b.date && a.original_amount == b.original_amount && a.price == b.price
+    && a.expenses == b.expenses && a.cost_offset == b.cost_offset && a.reserved == b.reserved && a.in_pool == b.in_pool
+}
+pub open spec fn lot_same_but_in_pool(a: AcquisitionLot, b: AcquisitionLot) -> bool {
+    a.transaction_idx == b.transaction_idx && a.date == b.date && a.original_amount == b.original_amount && a.price == b.price
+    && a.expenses == b.expenses && a.cost_offset == b.cost_offset && a.reserved == b.reserved && a.consumed == b.consumed
+}
+pub open spec fn lot_same_but_offset(a: AcquisitionLot, b: AcquisitionLot) -> bool {
+    a.transaction_idx == b.transaction_idx && a.date == b.date && a.original_amount == b.original_amount && a.price == b.price
+    && a.expenses == b.expenses && a.consumed == b.consumed && a.reserved == b.reserved && a.in_pool == b.in_pool
+}
+
+pub open spec fn f_avail_on(date: int) -> spec_fn(AcquisitionLot) -> real {
+    |l: AcquisitionLot| if l.date.d() == date { lot_avail(l) } else { 0real }
+}
+/// available shares counted the way the code counts them for matching (only positive availability)
+pub open spec fn f_pos_avail_on(date: int) -> spec_fn(AcquisitionLot) -> real {
+    |l: AcquisitionLot| if l.date.d() == date && lot_avail(l) > 0real { lot_avail(l) } else { 0real }
+}
+pub open spec fn f_pos_avail_cost_on(date: int) -> spec_fn(AcquisitionLot) -> real {
+    |l: AcquisitionLot| if l.date.d() == date && lot_avail(l) > 0real { lot_avail(l) * lot_unit(l) } else { 0real }
+}
+pub open spec fn f_held() -> spec_fn(AcquisitionLot) -> real { |l: AcquisitionLot| lot_held(l) }
+pub open spec fn f_pos_held() -> spec_fn(AcquisitionLot) -> real { |l: AcquisitionLot| if lot_held(l) > 0real { lot_held(l) } else { 0real } }
+pub open spec fn f_offset() -> spec_fn(AcquisitionLot) -> real { |l: AcquisitionLot| l.cost_offset.v() }
+pub open spec fn f_held_adj_cost() -> spec_fn(AcquisitionLot) -> real { |l: AcquisitionLot| if lot_held(l) > 0real { lot_adj_cost(l) } else { 0real } }
+pub open spec fn f_consumed() -> spec_fn(AcquisitionLot) -> real { |l: AcquisitionLot| l.consumed.v() }
+pub open spec fn f_in_pool() -> spec_fn(AcquisitionLot) -> real { |l: AcquisitionLot| l.in_pool.v() }
+pub open spec fn f_consumed_cost() -> spec_fn(AcquisitionLot) -> real { |l: AcquisitionLot| l.consumed.v() * lot_unit(l) }
+pub open spec fn f_in_pool_cost() -> spec_fn(AcquisitionLot) -> real { |l: AcquisitionLot| l.in_pool.v() * lot_unit(l) }
+
+pub open spec fn avail_on(s: Seq<AcquisitionLot>, date: int) -> real { rsum(s, f_avail_on(date)) }
+pub open spec fn pos_avail_on(s: Seq<AcquisitionLot>, date: int) -> real { rsum(s, f_pos_avail_on(date)) }
+
+/// under wf, counting only positive availability is the same as counting all of it
+pub proof fn lemma_pos_avail_eq(s: Seq<AcquisitionLot>, date: int)
+    requires wf_lots(s)
+    ensures pos_avail_on(s, date) == avail_on(s, date), avail_on(s, date) >= 0real
+{
+    rsum_ext(s, s, f_pos_avail_on(date), f_avail_on(date));
+    rsum_nonneg(s, f_avail_on(date));
+}
+
+// ---------- proceeds ----------
+/// C04.pro_rata: the share of the day's sale attributed to a leg of q out of Q shares
+pub open spec fn pro_rata_gross(q: real, price: real) -> real { q * price }
+pub open spec fn pro_rata_fees(q: real, big_q: real, fees: real) -> real { fees * (q / big_q) }
+
 } // verus!
